@@ -60,6 +60,7 @@ package banner
 //@     do commits = commits + 1
 //@   call (http.ResponseWriter).Write
 //@     assert[C14:frame-page-written-once-instead-of-body] arg0 == w.wrapped && frameable && !w.isAlreadyFramed && commits == 1 && bodyWrites == 0
+//@     assert[C14:frame-page-is-not-labelled-with-the-backends-encoding] !in("Content-Encoding", rwHeaderOf(w.wrapped))
 //@     do bodyWrites = bodyWrites + 1
 //@   ensures[C14:committed] w.wroteHeader && w.wrapped == old(w.wrapped)
 //@   ensures[C14:pass-body-through-unless-framing] !old(w.wroteHeader) && (!frameable || w.isAlreadyFramed) ==> w.writeBytes && commits == 1
@@ -70,6 +71,13 @@ package banner
 //@ func (*bannerResponseWriter).Write props(C14,C07)
 //@   requires w != nil && w.wrapped != nil && w.targetURL != nil && rwHeader[w.wrapped] != nil && (!w.wroteHeader ==> !w.writeBytes) && rwHeader[box(w)] == rwHeader[w.wrapped]
 //@   ghost passed int = 0
+//@   ghost implicit int = 0
+// a handler that writes a body without calling WriteHeader is committed with 200 first, so that the framing decision is
+// taken (and the body passed through unless the frame page replaces it) instead of the body being swallowed
+//@   call (*bannerResponseWriter).WriteHeader
+//@     assert[C14:implicit-commit-before-the-first-body-bytes] !w.wroteHeader && arg0 == w && arg1 == 200 && implicit == 0 && passed == 0
+//@     do implicit = implicit + 1
+//@   ensures[C14:body-is-never-written-uncommitted] implicit == ite(old(w.wroteHeader), 0, 1) && w.wroteHeader
 //@   call (http.ResponseWriter).Write
 //@     assert[C14:body-bytes-pass-through-unchanged] arg0 == w.wrapped && arg1 == bs && w.writeBytes && w.wroteHeader && passed == 0
 //@     do passed = passed + 1
